@@ -37,6 +37,11 @@ func genMeta(r *Rng, depth int) map[string]any {
 			m[k] = mStrPool[r.IntN(len(mStrPool))]
 		case 1:
 			m[k] = r.IntN(1000) - 500
+			if r.chance(1, 6) {
+				// whole numbers beyond the int64 range (JSON numbers have no width), each one a
+				// float64 exactly: encoding/json reads numbers in an `any` as float64
+				m[k] = []any{1e19, float64(1 << 63), -1e19}[r.IntN(3)]
+			}
 		case 2:
 			m[k] = r.bool()
 		case 3:
